@@ -142,6 +142,33 @@ pub fn cases_c17(rng: &mut Rng, thorough: bool) -> Vec<GenCase> {
     v
 }
 
+/// C12: anchors of parents and of their four children (the pairs the child theorems speak about), plus the planar cases
+pub fn cases_c12(rng: &mut Rng, thorough: bool) -> Vec<GenCase> {
+    let mut v = Vec::new();
+    let all_n = if thorough { 4 } else { 2 };
+    for n in 1..=all_n {
+        for o in 0..6u64 {
+            for s in 0..(1u64 << (2 * n)) {
+                v.push(anchor_case(s, n, o));
+                for t in 0..4 {
+                    v.push(anchor_case(4 * s + t, n + 1, o));
+                }
+            }
+        }
+    }
+    for _ in 0..(if thorough { 2500 } else { 500 }) {
+        let n = rng.range_i(1, 28) as u32;
+        let o = rng.below(6);
+        let s = gen_pos(n, rng);
+        v.push(anchor_case(s, n, o));
+        for t in 0..4 {
+            v.push(anchor_case(4 * s + t, n + 1, o));
+        }
+    }
+    cases_planar(rng, thorough, &mut v);
+    v
+}
+
 // ------------------------------------------------------------------ spherical layer
 
 use a5::coordinate_systems::{LonLat, Radians, Spherical};
@@ -630,6 +657,7 @@ pub fn cases_c06(rng: &mut Rng, thorough: bool, golden: &str) -> Vec<GenCase> {
 pub fn cases_for(prop: &str, rng: &mut Rng, thorough: bool) -> Option<(Vec<GenCase>, &'static str)> {
     Some(match prop {
         "C17" => (cases_c17(rng, thorough), "Corr.HilbertCases"),
+        "C12" => (cases_c12(rng, thorough), "Corr.HilbertCases"),
         "C19" => (cases_c19(rng, thorough), "Corr.GeoCases"),
         "C18" => (cases_c18(rng, thorough), "Corr.GeoCases"),
         "C15" => (cases_c15(rng, thorough), "Corr.GeoCases"),
